@@ -39,6 +39,13 @@ class AlignmentType:
         "Line: {}\n".format(str(self))+
         "begin > end: {} > {}".format(gfapy.posvalue(begpos),
                                       gfapy.posvalue(endpos)))
+    if gfapy.islastpos(begpos) and (not gfapy.islastpos(endpos) or
+        gfapy.posvalue(begpos) != gfapy.posvalue(endpos)):
+      # if the begin is the last position, the end must be the same position
+      raise gfapy.FormatError(
+        "Line: {}\n".format(str(self))+
+        "Wrong use of $ marker\n"+
+        "begin: {}; end: {}".format(begpos, endpos))
     if gfapy.isfirstpos(begpos):
       if gfapy.isfirstpos(endpos):
         return ("pfx", True)
